@@ -12,7 +12,8 @@ class C03(C02):
     rule = ("one run = base commit + one scenario family over the full porcelain incl. the discard-then-rewrite "
             "family (pending AI work in checkpoints or in INITIAL after a partial commit; path checkout / checkout "
             "HEAD -- path / restore / restore --staged --worktree / reset --hard / checkout -f / switch "
-            "--discard-changes / switch -f / stash drop; then human lines at the same places; commit). Oracle "
+            "--discard-changes / switch -f / stash drop; then human lines at the same places; commit; plus the one-sided "
+            "families revert / mv+rm / CI rewrite). Oracle "
             "one-sided: every line reported as AI session S (overlay and git-ai blame at HEAD after each step, every "
             "branch tip at the end) has S among the Ledger authors of that text. distinct = digest of family x "
             "op/edit/position sequence; non-trivial = an AI-attributed line was observed")
